@@ -156,6 +156,7 @@ func runOnceOpt(t *testing.T, sc *Scenario, tape *Tape, keepLog bool, dir *direc
 			fillResult(&res, w, sc)
 		}()
 		spine.VerifResetEvents()
+		treeShowPartial = false
 		w.initStrategy()
 		sc.Build(w)
 		tape.Phase = "sched"
